@@ -641,10 +641,25 @@ Proof.
   - vm_compute. do 4 eexists. split; reflexivity.
 Qed.
 
-Lemma ex_builds : exists tbs a f, build_tbs ex_input = Some (tbs, a) /\ read_tbs tbs = Some f /\
-  f_ips f = [[10; 1; 2; 3]] /\ nc_ip (f_perm f) = [([10; 0; 0; 0], [255; 0; 0; 0])] /\
-  f_mpl f = 0%Z /\ f_mplzero f = true /\ length (f_exts f) = 11%nat.
-Proof. vm_compute. do 3 eexists. repeat split. Qed.
+(* the example builds, parses, and shows the boundary behaviours: IPv4 SAN and
+   name-constraint range in 4 bytes, MaxPathLen 0 with MaxPathLenZero, eleven
+   extensions (ten generated + one extra).  Stated as a closed boolean so that
+   it is checked by evaluation of closed terms only. *)
+Definition ex_check : bool :=
+  match build_tbs ex_input with
+  | Some (tbs, a) =>
+      match read_tbs tbs with
+      | Some f =>
+          list_eqb bytes_eqb (f_ips f) [[10; 1; 2; 3]] &&
+          list_eqb ipnet_eqb (nc_ip (f_perm f)) [([10; 0; 0; 0], [255; 0; 0; 0])] &&
+          (f_mpl f =? 0)%Z && f_mplzero f && (length (f_exts f) =? 11)%nat
+      | None => false
+      end
+  | None => false
+  end.
+
+Lemma ex_builds : ex_check = true.
+Proof. vm_compute. reflexivity. Qed.
 
 (* defect 20 as found: appending the mask to the 16-byte form gives a 20-byte
    iPAddress, which the reader refuses *)
